@@ -194,22 +194,24 @@ def _stratum(tag, s):
             cur.get("peer"), h.get("in"), h.get("eg"))
 
 
-def select(tagged, seed, budget, prefer=()):
+def select(tagged, seed, budget, prefer=(), stratum=None):
     """Stratified, seeded selection of at most `budget` scenarios: every packet the model passes is
     kept; the near misses are drawn round-robin over strata (cause, ingress link, shape, position,
     direction, interface pair), the causes in `prefer` three times as often."""
     import random
     rnd = random.Random(seed)
-    keep = [(t, s) for (t, s) in tagged if not s["m"]["nm"]]
+    _st = stratum or _stratum
+    # with an explicit stratum function nothing is kept unconditionally
+    keep = [(t, s) for (t, s) in tagged if not s["m"]["nm"] and stratum is None]
     rest = {}
     for (t, s) in tagged:
-        if s["m"]["nm"]:
-            rest.setdefault(_stratum(t, s), []).append((t, s))
+        if s["m"]["nm"] or stratum is not None:
+            rest.setdefault(_st(t, s), []).append((t, s))
     if len(keep) > budget:
         # even the passing set is over budget: stratify it as well
         groups = {}
         for (t, s) in keep:
-            groups.setdefault(_stratum(t, s), []).append((t, s))
+            groups.setdefault(_st(t, s), []).append((t, s))
         keep = _round_robin(groups, rnd, budget * 2 // 3, prefer)
     room = max(0, budget - len(keep))
     return keep + _round_robin(rest, rnd, room, prefer)
@@ -236,7 +238,7 @@ def _round_robin(groups, rnd, room, prefer):
 
 
 def pipeline(c, pid, explores, asfounds=(), prefer=(), budget=12000, rand=None, flags=(), extra=(),
-             nontrivial=None, keep=None):
+             nontrivial=None, keep=None, stratum=None):
     """explores: [(cfgname, auth)]; asfounds: [(cfgname, [invariants expected to fail])];
     rand: dict for a {"rand": ...} line appended to every block; extra: [(cfg, auth, lines)]."""
     import time
@@ -256,7 +258,7 @@ def pipeline(c, pid, explores, asfounds=(), prefer=(), budget=12000, rand=None, 
             tm["mc:" + name] = round(time.time() - t1, 1)
             total += len(cache[name][1])
         cfg, scn = cache[name]
-        sel = select([(name, s) for s in scn if keep is None or keep(s)], c.seed + (7 if auth else 0), per, prefer)
+        sel = select([(name, s) for s in scn if keep is None or keep(s)], c.seed + (7 if auth else 0), per, prefer, stratum)
         lines = [{"p": s["p"]} for (_, s) in sel]
         for ln in ([rand] if isinstance(rand, dict) else list(rand or [])):
             lines.append(ln)
